@@ -28,6 +28,7 @@ RULE = (
     "non-trivial = >=3 nodes and some child exits or is created after its parent's exit; distinct = distinct tree+schedule"
 )
 RULE += '; a third of the cases run a garbage collection between any two steps (fenced heap)'
+RULE += '; a collection right after every block in gc mode; same-instant histories (zero measured times)'
 LEVEL_TEXT = (
     "History invariant over the harness's own event log: every entered-and-left scope fires its completion exactly "
     "once, after its own exit and after the exit of every descendant created before it completed; from then on "
@@ -131,6 +132,10 @@ def execute(case, sched: Sched):
                     await cm.__aexit__(None, None, None)
                 else:
                     cm.__exit__(None, None, None)
+                del cm  # nothing of the harness keeps the scope object of a block that was left
+                if case.get("gc"):
+                    # ... and a collection right after the block, before the loop gets a turn (callbacks not yet dispatched)
+                    _collect()
                 log("exit_done", node)
             except asyncio.CancelledError:
                 log("exit_cancelled", node)
@@ -152,7 +157,10 @@ def execute(case, sched: Sched):
                 # a garbage collection between any two steps must change nothing (a scope that has been left but still
                 # waits for its subtree is referenced by nobody but that subtree)
                 _collect()
-            await asyncio.sleep(0.125)  # the clock moves between steps, so frozen times are distinguishable
+            if not case.get("same_instant"):
+                await asyncio.sleep(0.125)  # the clock moves between steps, so frozen times are distinguishable
+            # "same_instant": every step happens at ONE clock value (a coarse clock, a fast program): scopes measure 0.0, which
+            # is a measured time like any other - the clock only moves afterwards
         for _ in range(len(scripts) + 3):
             await asyncio.sleep(1.5)  # let clock-advance steps in flight finish
             await vloop.settle()
@@ -334,7 +342,7 @@ def strategy(tier):
             scripts.append([enter(), {"s": "exit"}])
         exhaustive = draw(st.integers(0, 3)) == 0
         choices = None if exhaustive else draw(st.lists(st.sampled_from([0, 0, 0, 1, 1, 2]), min_size=0, max_size=16))
-        return {"tasks": scripts, "choices": choices, "exhaustive": exhaustive, "gc": draw(st.integers(0, 2)) == 0}
+        return {"tasks": scripts, "choices": choices, "exhaustive": exhaustive, "gc": draw(st.integers(0, 2)) == 0, "same_instant": draw(st.integers(0, 3)) == 0}
 
     @st.composite
     def cases(draw):
@@ -369,7 +377,7 @@ def strategy(tier):
             pos = draw(st.sampled_from(inside)) if inside and draw(st.integers(0, 4)) > 0 else draw(st.integers(0, len(scripts[parent])))
             scripts[parent].insert(pos, {"s": "spawn", "via": draw(st.sampled_from(["ctx", "asyncio", "asyncio"])), "task": child})
         choices = None if exhaustive else draw(st.lists(st.sampled_from([0, 0, 0, 1, 1, 2]), min_size=0, max_size=24))
-        return {"tasks": scripts, "choices": choices, "exhaustive": exhaustive, "gc": draw(st.integers(0, 3)) == 0}
+        return {"tasks": scripts, "choices": choices, "exhaustive": exhaustive, "gc": draw(st.integers(0, 3)) == 0, "same_instant": draw(st.integers(0, 3)) == 0}
 
     return st.one_of(cases(), chain())
 
